@@ -3,6 +3,6 @@
 for d in /tmp/seeds/*/*-?; do
   [ -f "$d/patch.diff" ] || continue
   [ -f "$d/confirm.json" ] && continue
-  case "$d" in *-d|*C1[1-9]-c|*C20-c) export BASE=5cffad322 ;; *-c) export BASE=ce8d5d498 ;; */C14-*|*/C20-*) export BASE=a977868ea ;; *) export BASE=4b7e11635 ;; esac
+  case "$d" in *-d|*-e|*C1[1-9]-c|*C20-c) export BASE=5cffad322 ;; *-c) export BASE=ce8d5d498 ;; */C14-*|*/C20-*) export BASE=a977868ea ;; *) export BASE=4b7e11635 ;; esac
   /verif/tools/confirm_seed.sh "$d"
 done
